@@ -196,7 +196,7 @@ func (d *decoder) lit(s string) bool {
 
 func (d *decoder) value(depth int) (any, bool) {
 	d.ws()
-	if d.pos >= len(d.buf) || depth > 16 {
+	if d.pos >= len(d.buf) || depth > 200 {
 		return nil, false
 	}
 	switch b := d.buf[d.pos]; {
